@@ -4,6 +4,7 @@
       one: Optional[VA]   other: Optional[VC]   many: List[VC]
    VB(VA) (extra)
    VC (tag, j1, j2: JSON-serialisable objects in JSON columns)   back: Optional[VA]   m: Optional[VM]   peers: List[VA]
+   VW(VCU(VC)) (hidden, extra_w)           -- VCU is NOT mapped: VW's closest mapped ancestor is not its direct base
    VM (label) ref: Optional[VA]            -- alternatively mapped through VMMapping
 The field order is the order ObjGraph.tla parses relationships in.
 """
@@ -94,6 +95,18 @@ class VC:
 
 
 @dataclass(eq=False)
+class VCU(VC):
+    """An intermediate class of the hierarchy that is NOT given to ORMatic (not mapped), with a field of its own."""
+    hidden: int = 0
+
+
+@dataclass(eq=False)
+class VW(VCU):
+    """A mapped class whose closest mapped ancestor (VC) is not its direct base; VC has no other subclass."""
+    extra_w: int = 0
+
+
+@dataclass(eq=False)
 class VM:
     label: str = ""
     ref: Optional[VA] = None
@@ -118,4 +131,4 @@ class VMMapping(AlternativeMapping[VM]):
         return VM(self.label, self.ref)
 
 
-MAPPED = [VA, VB, VC, VM, VN]
+MAPPED = [VA, VB, VC, VW, VM, VN]
